@@ -169,6 +169,10 @@ MODES = {
     "ctr-wrap": ("AESModeOfOperationCTR", "stream", "key, Counter((1 << 128) - 1)", {"ctr0": (1 << 128) - 1}),
     "ctr-carry": ("AESModeOfOperationCTR", "stream", "key, counter=Counter(initial_value=0x1FFFF)", {"ctr0": 0x1FFFF}),
 }
+# the incrementing function is +1 mod 2^128 (SP 800-38A B.1): a carry must propagate into every byte, including the most significant
+for _k in (1, 8, 15):
+    _v = (0xAB << (8 * _k)) | ((1 << (8 * _k)) - 1) if _k < 16 else 0
+    MODES["ctr-carry-into-byte%d" % (15 - _k)] = ("AESModeOfOperationCTR", "stream", "key, Counter(%d)" % _v, {"ctr0": _v})
 
 
 def _syms(tag, n):
@@ -278,7 +282,7 @@ def mode_call_rules(prog, chk, pid, tier):
                     ref = Ref(key, ivs, **refkw)
                     want: List[Term] = []
                     for v in datas:
-                        want.extend(getattr(ref, name.rstrip("0123456789").split("-")[0])(d, v))
+                        want.extend(getattr(ref, name.split("-")[0].rstrip("0123456789"))(d, v))
                     if res.dead or res.ret is None:
                         bad = (plan, "raises for valid input")
                         break
